@@ -551,6 +551,9 @@ func (x *CommonLex) ConstructToken(
 		}
 	}
 	var b bytes.Buffer
+	if c == xutils.ERR {
+		x.SetError(fmt.Errorf("Invalid UTF-8 input"))
+	}
 	add(&b, c)
 
 	for {
